@@ -118,6 +118,13 @@ var vstrs = []string{"", "A", "a", "ab", "b", "ž", "😀"}
 
 func newVconc(mode string, shift uint) *vconc {
 	c := &vconc{mode: mode, shift: shift, objs: map[int]at.Object{}, lists: map[int]at.List{}, strs: vstrs}
+	if mode == "extremeAgg" {
+		// aggregate alphabet -2..3: the smallest token is MinInt, the largest MaxInt
+		c.mode = "extreme"
+		c.intExt = map[int]int{-2: math.MinInt, -1: -1, 0: 0, 1: 1, 2: 1<<53 + 1, 3: math.MaxInt}
+		c.fltExt = map[int]float64{}
+		mode = ""
+	}
 	if mode == "extreme" {
 		ints := []int{math.MinInt, math.MinInt + 1, -(1 << 53) - 1, -1, 0, 1, 1<<53 + 1, math.MaxInt - 1, math.MaxInt}
 		c.intExt = map[int]int{}
@@ -380,6 +387,43 @@ func checkViews(r *listRec, how int) error {
 			return err
 		}
 	}
+	// a callback that returns nil for odd calls: the element must still be present (as nil)
+	nilOdd := func(ws []any) []any {
+		out := make([]any, len(ws))
+		for i, w := range ws {
+			if i%2 == 0 {
+				out[i] = nil
+			} else {
+				out[i] = fmt.Sprintf("%T:%v", w, idOf(w))
+			}
+		}
+		return out
+	}
+	mkNil := func(v any) any {
+		n++
+		if n%2 == 1 {
+			return nil
+		}
+		return fmt.Sprintf("%T:%v", v, idOf(v))
+	}
+	mapsNil := map[string]func() at.List{
+		"O":     func() at.List { return l.MapObjects(func(x at.Object) any { return mkNil(x) }) },
+		"L":     func() at.List { return l.MapLists(func(x at.List) any { return mkNil(x) }) },
+		"str":   func() at.List { return l.MapStrings(func(x string) any { return mkNil(x) }) },
+		"bool":  func() at.List { return l.MapBools(func(x bool) any { return mkNil(x) }) },
+		"int":   func() at.List { return l.MapInts(func(x int) any { return mkNil(x) }) },
+		"float": func() at.List { return l.MapFloats(func(x float64) any { return mkNil(x) }) },
+	}
+	for k, f := range mapsNil {
+		n = 0
+		if err := cmpSeq("Map "+k+" with a callback returning nil", listContent(f()), nilOdd(want(k))); err != nil {
+			return err
+		}
+	}
+	n = 0
+	if err := cmpSeq("MapValues with a callback returning nil", listContent(l.MapValues(func(v any) any { return mkNil(v) })), nilOdd(vals)); err != nil {
+		return err
+	}
 	n = 0
 	res := l.Map(func(i int, v any) any { return fmt.Sprintf("%d|%s", i, mk(v)) })
 	exp := expectTags(vals)
@@ -614,6 +658,12 @@ func checkSort(r *listRec, how int, mode string) error {
 	if err := cmpSeq("Sort twice", listContent(l3), sorted); err != nil {
 		return err
 	}
+	// Sort; Reverse; Sort: the second Sort has to sort again
+	l3.Reverse()
+	l3.Sort()
+	if err := cmpSeq("Sort after Sort;Reverse", listContent(l3), sorted); err != nil {
+		return err
+	}
 	// sorting the derived copies must not disturb the sorted original either
 	cat.Sort()
 	if err := cmpSeq("original after sorting its Concat", listContent(l3), sorted); err != nil {
@@ -630,6 +680,9 @@ func bigToInt64(b *big.Int) int {
 // checkAgg: C18 on one list.
 func checkAgg(r *listRec, how int, mode string, shift uint) error {
 	c := newVconc(mode, shift)
+	if mode == "extremeAgg" {
+		mode = "extreme"
+	}
 	vals := make([]any, len(r.List))
 	for i, t := range r.List {
 		vals[i] = c.val(t)
@@ -728,7 +781,24 @@ func checkAgg(r *listRec, how int, mode string, shift uint) error {
 			}
 		}
 	}
-	return cmpSeq("list after the aggregate calls", listContent(l), vals)
+	if err := cmpSeq("list after the aggregate calls", listContent(l), vals); err != nil {
+		return err
+	}
+	// the same aggregates after Sort().Reverse() (same multiset) on sortable lists
+	homo := len(r.List) > 0 && (ni == len(r.List) || a.Nf == len(r.List))
+	if homo && mode != "scale" {
+		min0, max0, imin0, imax0 := l.Min(), l.Max(), l.IntMin(), l.IntMax()
+		l.Sort()
+		l.Reverse()
+		if l.Min() != min0 || l.Max() != max0 || l.IntMin() != imin0 || l.IntMax() != imax0 {
+			return fmt.Errorf("after Sort().Reverse() the extremes changed: Min %v->%v Max %v->%v IntMin %d->%d IntMax %d->%d", min0, l.Min(), max0, l.Max(), imin0, l.IntMin(), imax0, l.IntMax())
+		}
+		l.Sort()
+		if l.Min() != min0 || l.Max() != max0 || l.IntMin() != imin0 || l.IntMax() != imax0 {
+			return fmt.Errorf("after Sort() the extremes changed")
+		}
+	}
+	return nil
 }
 
 // checkObjViews: C14 on one object.
@@ -921,7 +991,7 @@ func runViewsRecord(family string, r *listRec, seed int64, count *int64) (string
 				return failVariant, fail
 			}
 		}
-		run("conc=extreme", func() error { return checkAgg(r, int(seed)+1, "extreme", 0) })
+		run("conc=extreme", func() error { return checkAgg(r, int(seed)+1, "extremeAgg", 0) })
 	}
 	return failVariant, fail
 }
